@@ -56,7 +56,7 @@ pub const C02: CheckDef = CheckDef {
 
 pub const C03: CheckDef = CheckDef {
     id: "C03",
-    worker: |ctx| play_worker(ctx, Mode::C03, cases(ctx.tier, 30_000, 600_000)),
+    worker: |ctx| play_worker(ctx, Mode::C03, cases(ctx.tier, 150_000, 3_000_000)),
     replay: |v| play_replay(Mode::C03, v),
     rule: "after every ply: in_check()/state() vs reference; the moved board vs the same position parsed from the reference FEN (and built with the builder when no right is held): legal-move sets, check, state, zobrist, std hash, text, {:?} and {:#?}. evaluations = positions compared. Non-trivial = last move gave check (classified direct/discovered/castling/promotion/en-passant/double), a pin exists, or the position is mate/stalemate/clock-draw; distinct by (position key, last move).",
     assumptions: ASSUME_PLAY,
